@@ -1610,4 +1610,138 @@ theorem driverRunF_prefix : ∀ (evs : List FEvent) (buf : List (Nat × TSample)
       | succ i => simp at h
 
 
+/-! ## the transport: nothing is lost, duplicated or invented between the samplers and the calculator -/
+
+theorem takeMsg_perm (w : Nat) : ∀ (l : List (Nat × List (Nat × TSample))) (c : List (Nat × TSample))
+    (rest : List (Nat × List (Nat × TSample))), takeMsg w l = some (c, rest) →
+    ((l.map (·.2)).flatten).Perm (c ++ (rest.map (·.2)).flatten) := by
+  intro l
+  induction l with
+  | nil => intro c rest h; simp [takeMsg] at h
+  | cons x l ih =>
+    obtain ⟨w', c0⟩ := x
+    intro c rest h
+    simp only [takeMsg] at h
+    by_cases hw : w' = w
+    · simp only [hw, if_true, Option.some.injEq, Prod.mk.injEq] at h
+      obtain ⟨rfl, rfl⟩ := h
+      simp
+    · simp only [hw, if_false] at h
+      cases ht : takeMsg w l with
+      | none => rw [ht] at h; simp at h
+      | some p =>
+        obtain ⟨c', l'⟩ := p
+        rw [ht] at h
+        simp only [Option.some.injEq, Prod.mk.injEq] at h
+        obtain ⟨rfl, rfl⟩ := h
+        have := ih c' l' ht
+        simp only [List.map_cons, List.flatten_cons]
+        -- c0 ++ X ~ c' ++ (c0 ++ Y) given X ~ c' ++ Y
+        refine ((List.Perm.append_left c0 this).trans ?_)
+        rw [← List.append_assoc, ← List.append_assoc]
+        exact List.Perm.append_right _ List.perm_append_comm
+
+theorem held_tstep (st : TState) (e : TEvent) :
+    ((match e with
+      | .postProcess => st.buf
+      | _ => []) ++ (tstep st e).held).Perm
+    (st.held ++ (match e with
+      | .accept _ s => [s]
+      | _ => [])) := by
+  cases e with
+  | accept w s =>
+    simp only [tstep, TState.held, List.nil_append, List.map_append, List.map_cons, List.map_nil]
+    simp only [List.append_assoc]
+    exact List.Perm.refl _
+  | ship w =>
+    simp only [tstep, List.nil_append, List.append_nil]
+    cases hc : (st.queued.filter (fun x => x.1 == w)).map (·.2) with
+    | nil => exact List.Perm.refl _
+    | cons c cs =>
+      simp only [TState.held, List.map_append, List.map_cons, List.map_nil, List.flatten_append, List.flatten_cons, List.flatten_nil,
+        List.append_nil]
+      rw [← hc]
+      refine List.Perm.append_left _ ?_
+      rw [List.append_assoc]
+      refine List.Perm.append_left _ ?_
+      rw [← List.map_append]
+      exact (List.filter_append_perm (fun x => x.1 == w) st.queued).map _
+  | deliver w =>
+    simp only [tstep, List.nil_append, List.append_nil]
+    cases ht : takeMsg w st.inflight with
+    | none => exact List.Perm.refl _
+    | some p =>
+      obtain ⟨c, rest⟩ := p
+      simp only [TState.held]
+      have := takeMsg_perm w st.inflight c rest ht
+      rw [List.append_assoc]
+      refine List.Perm.append_left _ ?_
+      rw [← List.append_assoc]
+      exact List.Perm.append_right _ this.symm
+  | postProcess =>
+    simp only [tstep, TState.held, List.nil_append, List.append_nil]
+    exact List.Perm.refl _
+
+/-- all batches handed to the post-processor, plus what is still held somewhere, are exactly the accepted samples -/
+theorem transport_perm : ∀ (evs : List TEvent) (st : TState),
+    ((tbatches st evs).flatten ++ (tfinal st evs).held).Perm (st.held ++ acceptedOf evs) := by
+  intro evs
+  induction evs with
+  | nil => intro st; simp [tbatches, tfinal, acceptedOf]
+  | cons e evs ih =>
+    intro st
+    have hstep := held_tstep st e
+    have hrec := ih (tstep st e)
+    cases e with
+    | accept w s =>
+      simp only [tbatches, tfinal, acceptedOf, List.nil_append] at hstep hrec ⊢
+      refine hrec.trans ?_
+      rw [show st.held ++ s :: acceptedOf evs = (st.held ++ [s]) ++ acceptedOf evs by simp]
+      exact List.Perm.append_right _ hstep
+    | ship w =>
+      simp only [tbatches, tfinal, acceptedOf, List.nil_append, List.append_nil] at hstep hrec ⊢
+      exact hrec.trans (List.Perm.append_right _ hstep)
+    | deliver w =>
+      simp only [tbatches, tfinal, acceptedOf, List.nil_append, List.append_nil] at hstep hrec ⊢
+      exact hrec.trans (List.Perm.append_right _ hstep)
+    | postProcess =>
+      simp only [tbatches, tfinal, acceptedOf, List.flatten_cons, List.append_nil] at hstep hrec ⊢
+      rw [List.append_assoc]
+      refine (List.Perm.append_left st.buf hrec).trans ?_
+      rw [← List.append_assoc]
+      exact List.Perm.append_right _ hstep
+
+/-- the records and the calculator state are those of the post-processor over these batches -/
+theorem transport_records : ∀ (evs : List TEvent) (st : TState),
+    trecords st evs = (postprocessAll st.stats (tbatches st evs)).2 ∧
+    (tfinal st evs).stats = (postprocessAll st.stats (tbatches st evs)).1 := by
+  intro evs
+  induction evs with
+  | nil => intro st; exact ⟨rfl, rfl⟩
+  | cons e evs ih =>
+    intro st
+    cases e with
+    | accept w s => exact ih (tstep st (.accept w s))
+    | ship w =>
+      have h := ih (tstep st (.ship w))
+      have hs : (tstep st (.ship w)).stats = st.stats := by
+        simp only [tstep]; split <;> rfl
+      rw [hs] at h
+      exact h
+    | deliver w =>
+      have h := ih (tstep st (.deliver w))
+      have hs : (tstep st (.deliver w)).stats = st.stats := by
+        simp only [tstep]; split <;> rfl
+      rw [hs] at h
+      exact h
+    | postProcess =>
+      obtain ⟨h1, h2⟩ := ih (tstep st .postProcess)
+      simp only [trecords, tbatches, tfinal, postprocessAll_cons]
+      rw [h1, h2]
+      exact ⟨rfl, rfl⟩
+
+theorem samplesOf_perm (k : Nat) {a b : List (Nat × TSample)} (h : a.Perm b) : (samplesOf k a).Perm (samplesOf k b) :=
+  (h.filter _).map _
+
+
 end Throughput
